@@ -250,6 +250,98 @@ pub struct Case {
     pub via_reader: bool,
 }
 
+/// a generated target type (script of deserializer hints, see dynde.rs) on a generated input
+#[derive(Clone, Debug, Serialize, Deserialize, PartialEq)]
+pub struct DynCase {
+    pub script: crate::dynde::Script,
+    pub input: String,
+    /// `None` = from_str, `Some(cuts)` = from_reader over a chunked BufRead
+    pub cuts: Option<Vec<usize>>,
+}
+
+pub fn dyn_budget(c: &DynCase) -> usize {
+    (c.input.len() + 16) * (c.script.depth() + 2) * 4
+}
+
+pub fn check_dyn(c: &DynCase) -> Verdict {
+    use crate::dynde;
+    dynde::set_budget(dyn_budget(c));
+    let res = std::panic::catch_unwind(std::panic::AssertUnwindSafe(|| match &c.cuts {
+        None => dynde::from_str(&c.script, &c.input),
+        Some(cuts) => {
+            let cuts = super::c02::normalise_cuts(c.input.as_bytes(), cuts);
+            dynde::from_reader(&c.script, crate::sources::ChunkedBufRead::new(c.input.as_bytes(), cuts))
+        }
+    }));
+    let res = match res {
+        Ok(r) => r,
+        Err(p) => {
+            let msg = crate::engine::panic_message(&p);
+            // known finding F10: a visitor that returns before its MapAccess/SeqAccess is exhausted
+            // leaves the rest of the element in the stream; the enclosing access then meets an End
+            // event where the code says `unreachable!`
+            if msg.contains("entered unreachable code: BytesEnd") && c.script.has_early_stop() {
+                let mut v = Verdict::pass(true);
+                v.known.push("F10-undrained-map-access-end-event-unreachable");
+                v.classes.push("scripted-visitor-stops-early");
+                return v;
+            }
+            return Verdict::fail(format!("panic: {} | script {:?} | input {:?}", msg, c.script, c.input));
+        }
+    };
+    if dynde::overrun() {
+        return Verdict::fail(format!("the scripted visitor was driven through more than {} steps on an input of {} bytes: deserialization does not terminate | script {:?} | input {:?}", dyn_budget(c), c.input.len(), c.script, c.input));
+    }
+    let first_ok = {
+        let mut r = quick_xml::Reader::from_str(&c.input);
+        r.read_event().is_ok()
+    };
+    let steps = dynde::steps();
+    let mut v = Verdict::pass(first_ok && steps >= 3);
+    v.classes.push(if res.is_ok() { "scripted-returned-ok" } else { "scripted-returned-err" });
+    if steps >= 10 {
+        v.classes.push("scripted->=10-visitor-steps");
+    }
+    if c.script.count(&|h| h == dynde::Hint::Any) > 0 {
+        v.classes.push("scripted-uses-deserialize_any");
+    }
+    if c.script.count(&|h| matches!(h, dynde::Hint::Bytes | dynde::Hint::ByteBuf | dynde::Hint::Identifier | dynde::Hint::I128 | dynde::Hint::U128)) > 0 {
+        v.classes.push("scripted-uses-bytes/identifier/128-bit-hints");
+    }
+    if c.script.count(&|h| h == dynde::Hint::Enum) > 0 {
+        v.classes.push("scripted-uses-enum");
+    }
+    if c.script.has_early_stop() {
+        v.classes.push("scripted-visitor-stops-early");
+    }
+    v
+}
+
+pub fn dyn_case_strategy(soup: bool) -> BoxedStrategy<DynCase> {
+    let cuts = prop_oneof![2 => Just(None), 1 => Just(Some(vec![])), 1 => (1usize..8).prop_map(|k| Some((1..200).map(|i| i * k).collect::<Vec<usize>>())), 1 => prop::collection::vec(0usize..300, 0..8).prop_map(Some)];
+    if soup {
+        (prop::collection::vec(any::<u16>(), 0..14), prop::collection::vec(any::<u8>(), 0..40), any::<u16>(), cuts)
+            .prop_map(|(ws, choices, base, cuts)| {
+                let input = ws.iter().map(|w| VOCAB[scale(*w, VOCAB.len())]).collect::<Vec<_>>().concat();
+                // the script is derived from a valid base document, the input is soup
+                let script = crate::dynde::script_from_doc(EXTRA_DOCS[scale(base, EXTRA_DOCS.len())], &choices);
+                DynCase { script, input, cuts }
+            })
+            .boxed()
+    } else {
+        (any_val(), opts_strategy(), prop::collection::vec(any::<u8>(), 0..64), prop::collection::vec(edit_strategy(), 0..4), any::<u16>(), cuts)
+            .prop_map(|(val, opts, choices, edits, extra, cuts)| {
+                let mut doc = val.serialize_with(&opts).unwrap_or_else(|_| "<r/>".to_string());
+                if extra % 8 == 0 {
+                    doc = EXTRA_DOCS[scale(extra, EXTRA_DOCS.len())].to_string();
+                }
+                let script = crate::dynde::script_from_doc(&doc, &choices);
+                DynCase { script, input: apply_edits(&doc, &edits), cuts }
+            })
+            .boxed()
+    }
+}
+
 pub fn info() -> PropInfo {
     PropInfo {
         id: "C07",
@@ -467,6 +559,7 @@ pub fn edit_strategy() -> impl Strategy<Value = Edit> {
 
 fn run(ctx: &Ctx) {
     ctx.run_regress::<Case, _>(check);
+    ctx.run_regress::<DynCase, _>(check_dyn);
     // (a) mutated valid documents
     let mutated = || {
         Box::new((any_val(), opts_strategy(), prop::collection::vec(edit_strategy(), 1..5), target_strategy(), 0u8..4, any::<bool>(), any::<u16>()).prop_map(|(val, opts, edits, other, pick, via_reader, extra)| {
@@ -531,6 +624,10 @@ fn run(ctx: &Ctx) {
         },
         check,
     );
+    // generated target TYPES: scripts of deserializer hints derived from the document (so that the
+    // script and the document agree deeply), driven through a visitor that accepts everything
+    ctx.run_proptest_with("scripted-targets-x-mutated-documents", ctx.tier.pick(1_500_000, 12_000_000), || Box::new(dyn_case_strategy(false)), check_dyn);
+    ctx.run_proptest_with("scripted-targets-x-token-soup", ctx.tier.pick(500_000, 4_000_000), || Box::new(dyn_case_strategy(true)), check_dyn);
     let special: Vec<&str> = VOCAB.iter().copied().filter(|w| w.starts_with("<!") || w.starts_with("<?") || w.starts_with('&') || w.contains("nil") || *w == "</>" || *w == "<>" || w.starts_with("<![")).collect();
     ctx.run_groups(
         "one-special-token-at-every-boundary",
@@ -554,6 +651,10 @@ fn run(ctx: &Ctx) {
 }
 
 fn replay(_stage: &str, case: &Value) -> Result<Verdict, String> {
+    if case.get("script").is_some() {
+        let c: DynCase = serde_json::from_value(case.clone()).map_err(|e| e.to_string())?;
+        return Ok(check_dyn(&c));
+    }
     let c: Case = serde_json::from_value(case.clone()).map_err(|e| e.to_string())?;
     Ok(check(&c))
 }
